@@ -1,4 +1,4 @@
-CONSTANTS N = 4  W = 2  MaxAdd = 3  MaxLock = 1  AllowDup = TRUE
+CONSTANTS N = 4  W = 1  MaxAdd = 3  MaxLock = 1  AllowDup = TRUE
           MeldInterior = TRUE  SkipLocked = TRUE  KeepOnLock = TRUE
 SPECIFICATION Spec
 INVARIANT Canonical
